@@ -100,6 +100,27 @@ class RawValue(Harness):
                     ("binary: empty value has an empty raw value", isinstance(e.raw_value, bv.SymBytes) and len(e.raw_value) == 0)]
         else:              # precondition: no special methods
             sp = defined_specials()
+            hooks = [x for x in sp if x.split(".")[1] in COPY_HOOKS]
+            sp = [x for x in sp if x not in hooks]
+            if hooks and not sp:
+                # the library now takes part in copying: that code CAN be executed symbolically - do so (copy / deepcopy of every value
+                # class with symbolic value and raw value; pickle is exercised in the concrete replay)
+                import copy
+                cases = [("int", lambda: C.IntParameter(bv.SymInt(v), bv.SymInt(r))), ("float", lambda: C.FloatParameter(bv.SymReal(x), bv.SymInt(r))),
+                         ("float-rawfloat", lambda: C.FloatParameter(bv.SymReal(x), bv.SymReal(y))), ("bool", lambda: C.BoolParameter(bv.SymInt(v), bv.SymInt(r))),
+                         ("str", lambda: C.StrParameter("LABEL", bv.SymInt(r))), ("str-emptyraw", lambda: C.StrParameter("TXT", bv.SymBytes([]))),
+                         ("binary", lambda: C.BinaryParameter(bv.SymBytes([b0, b1])))]
+                for name, mk in cases:
+                    o = mk()
+                    for how, fn in (("copy", copy.copy), ("deepcopy", copy.deepcopy)):
+                        try:
+                            c2 = fn(o)
+                        except Exception as e:   # noqa: BLE001
+                            obl.append((f"{how} of a {name} value raises nothing ({type(e).__name__})", False))
+                            continue
+                        obl.append((f"{how} of a {name} value keeps the value", _same(c2, o)))
+                        obl.append((f"{how} of a {name} value keeps the raw value (also when it is falsy)", _same(getattr(c2, "raw_value", None), o.raw_value)))
+                return result("case8-copyhooks", obl, observe={"cls": "ran"}, inputs=dict(inputs, hooks=hooks))
             if sp:
                 # not a violation of the property by itself: the clauses this technique cannot decide are no longer covered by the
                 # "CPython does it" argument, so the check must not pass -> inconclusive (exit 2)
@@ -110,6 +131,21 @@ class RawValue(Harness):
             obl += [("value classes subclass the matching built-ins", issubclass(rc["IntParameter"], int) and issubclass(rc["BoolParameter"], int)
                      and issubclass(rc["FloatParameter"], float) and issubclass(rc["StrParameter"], str) and issubclass(rc["BinaryParameter"], bytes))]
         return result(f"case{case}", obl, observe={"cls": "ran"}, inputs=inputs)
+
+
+COPY_HOOKS = ("__reduce__", "__reduce_ex__", "__copy__", "__deepcopy__", "__getstate__", "__setstate__", "__getnewargs__", "__getnewargs_ex__")
+
+
+def _same(a, b):
+    if type(a).__name__ != type(b).__name__:
+        return False
+    if isinstance(a, bv.SymInt) or isinstance(a, bv.SymReal):
+        return a.t == b.t
+    if isinstance(a, bv.SymBytes):
+        return len(a.items) == len(b.items) and z3.And([bv.byte_term(p) == bv.byte_term(q) for p, q in zip(a.items, b.items)] + [z3.BoolVal(True)])
+    if isinstance(a, bv.SymStr):
+        return a.v == b.v
+    return a == b
 
 
 def _t(x):
@@ -168,7 +204,15 @@ def concrete(req):
     elif case == 7:
         ok = C.BinaryParameter(b).raw_value == b and C.BinaryParameter(b"").raw_value == b""
     else:
-        ok = not defined_specials()
+        import copy
+        import pickle
+        ok = True
+        objs = [C.IntParameter(v, r), C.FloatParameter(x, r), C.FloatParameter(x, y), C.BoolParameter(bool(v), r), C.StrParameter("LABEL", r),
+                C.StrParameter("TXT", b""), C.BinaryParameter(b), C.StrParameter("OFF", 0), C.FloatParameter(1.5, 0), C.FloatParameter(2.5, 0.0)]
+        for o in objs:
+            for fn in (copy.copy, copy.deepcopy, lambda z: pickle.loads(pickle.dumps(z))):
+                c2 = fn(o)
+                ok = ok and type(c2) is type(o) and c2 == o and c2.raw_value == o.raw_value and type(c2.raw_value) is type(o.raw_value)
     return {"cls": "ran", "ok": ok}
 
 
